@@ -2,6 +2,7 @@
 //! properties: C11
 //! note: confirmation thresholds of both OnchainEventEntry types (channelmonitor.rs, onchaintx.rs)
 //! trusted: assume_specification for core::cmp::max (its std definition); foreign payload types (Txid, BlockHash, Transaction, HTLCSource, PaymentHash, PaymentPreimage, Amount, OutPoint, TxOut) are opaque structs; SpendableOutputDescriptor / DelayedPaymentOutputDescriptor are skeletons keeping the fields the code reads
+//! trusted: u11b: ChannelMonitorImpl is a self skeleton (R5) with the fields blocks_disconnected touches; OnchainTxHandler::blocks_disconnected/transaction_unconfirmed, cancel_prev_commitment_claims, closure_conf_target, queue_latest_holder_commitment_txn_for_broadcast are external_body with the frame "does not touch best_block / onchain_events_awaiting_threshold_conf" assumed (they only read best_block); Txid equality is spec equality; R6e for Vec::retain
 //! assume: 1 <= height <= 2^31-1 for entries (height == 0 with csv == 0 would underflow `height + csv - 1`; LDK never records height 0)
 use vstd::prelude::*;
 verus! {
@@ -82,6 +83,200 @@ impl OnchainEventEntry {
     1 <= self.height <= 0x7fff_ffff
 //@ensures P C11 claim-events-final-only-once-buried-by-anti-reorg-depth
     r <==> height as int - self.height as int + 1 >= ANTI_REORG_DELAY
+//@end
+}
+}
+// ---------------- u11b: a reorganisation retracts the not-yet-final events of the blocks it removes ----------------
+mod reorg {
+use super::*;
+use super::monitor::*;
+impl PartialEqSpecImpl for Txid { open spec fn obeys_eq_spec() -> bool { true } open spec fn eq_spec(&self, other: &Txid) -> bool { *self == *other } }
+impl PartialEq for Txid { #[verifier::external_body] fn eq(&self, o: &Txid) -> (r: bool) { unimplemented!() } }
+pub trait BroadcasterInterface {} pub trait FeeEstimator {} pub trait Logger {}
+pub struct WithContext<L: Logger> { pub l: L }
+impl<L: Logger> Logger for WithContext<L> {}
+impl<'a, T: Logger> Logger for &'a T {}
+pub struct LowerBoundedFeeEstimator<F: FeeEstimator>(pub F);
+impl<F: FeeEstimator> LowerBoundedFeeEstimator<F> { #[verifier::external_body] pub fn new(f: F) -> Self { unimplemented!() } }
+pub struct ConfirmationTarget {} pub struct ScriptBuf {}
+pub struct TrustedTx {} impl TrustedTx { #[verifier::external_body] pub fn txid(&self) -> Txid { unimplemented!() } }
+pub struct HolderCommitmentTransaction {} impl HolderCommitmentTransaction { #[verifier::external_body] pub fn trust(&self) -> TrustedTx { unimplemented!() } }
+pub struct FundingScope { pub current_holder_commitment_tx: HolderCommitmentTransaction }
+pub struct OnchainTxHandler {}
+impl OnchainTxHandler {
+    #[verifier::external_body]
+    pub fn blocks_disconnected<B: BroadcasterInterface, F: FeeEstimator, L: Logger>(&mut self, new_height: u32, broadcaster: &B, conf_target: ConfirmationTarget, destination_script: &ScriptBuf, fee_estimator: &LowerBoundedFeeEstimator<F>, logger: &WithContext<L>) { unimplemented!() }
+    #[verifier::external_body]
+    pub fn transaction_unconfirmed<B: BroadcasterInterface, F: FeeEstimator, L: Logger>(&mut self, txid: &Txid, broadcaster: &B, conf_target: ConfirmationTarget, destination_script: &ScriptBuf, fee_estimator: &LowerBoundedFeeEstimator<F>, logger: &WithContext<L>) { unimplemented!() }
+}
+// R5: self skeleton with exactly the fields the two functions touch
+pub struct ChannelMonitorImpl { pub best_block: BlockLocator, pub onchain_events_awaiting_threshold_conf: Vec<OnchainEventEntry>, pub alternative_funding_confirmed: Option<(Txid, u32)>,
+    pub holder_tx_signed: bool, pub funding_spend_seen: bool, pub funding: FundingScope, pub onchain_tx_handler: OnchainTxHandler, pub destination_script: ScriptBuf }
+
+pub open spec fn kept_le(s: Seq<OnchainEventEntry>, h: int) -> Seq<OnchainEventEntry> decreases s.len() {
+    if s.len() == 0 { Seq::empty() } else { let k = kept_le(s.drop_last(), h); if s.last().height as int <= h { k.push(s.last()) } else { k } }
+}
+pub proof fn lemma_kept_step(s: Seq<OnchainEventEntry>, i: int, h: int)
+    requires 0 <= i < s.len()
+    ensures kept_le(s.take(i + 1), h) == (if s[i].height as int <= h { kept_le(s.take(i), h).push(s[i]) } else { kept_le(s.take(i), h) })
+{ assert(s.take(i + 1).drop_last() =~= s.take(i)); }
+pub proof fn lemma_kept_all_le(s: Seq<OnchainEventEntry>, h: int)
+    ensures forall|k: int| 0 <= k < kept_le(s, h).len() ==> (#[trigger] kept_le(s, h)[k]).height as int <= h,
+            forall|k: int| 0 <= k < kept_le(s, h).len() ==> s.contains(#[trigger] kept_le(s, h)[k]),
+    decreases s.len()
+{
+    if s.len() > 0 {
+        lemma_kept_all_le(s.drop_last(), h);
+        assert forall|k: int| 0 <= k < kept_le(s, h).len() implies s.contains(#[trigger] kept_le(s, h)[k]) by {
+            let e = kept_le(s, h)[k];
+            if k < kept_le(s.drop_last(), h).len() {
+                assert(kept_le(s.drop_last(), h)[k] == e);
+                let j = choose|j: int| 0 <= j < s.drop_last().len() && s.drop_last()[j] == e;
+                assert(s[j] == e);
+            } else { assert(s[s.len() - 1] == e); }
+        }
+    }
+}
+
+impl ChannelMonitorImpl {
+    // frame assumed for the three helpers (checked by reading them: they only read best_block and never touch the awaiting-events list)
+    #[verifier::external_body]
+    pub fn cancel_prev_commitment_claims<L: Logger>(&mut self, logger: &L, confirmed_commitment_txid: &Txid)
+        ensures final(self).best_block == old(self).best_block, final(self).onchain_events_awaiting_threshold_conf == old(self).onchain_events_awaiting_threshold_conf,
+            final(self).alternative_funding_confirmed == old(self).alternative_funding_confirmed, final(self).holder_tx_signed == old(self).holder_tx_signed, final(self).funding_spend_seen == old(self).funding_spend_seen
+    { unimplemented!() }
+    #[verifier::external_body]
+    fn closure_conf_target(&self) -> ConfirmationTarget { unimplemented!() }
+    #[verifier::external_body]
+    pub fn queue_latest_holder_commitment_txn_for_broadcast<B: BroadcasterInterface, F: FeeEstimator, L: Logger>(&mut self, broadcaster: &B, fee_estimator: &LowerBoundedFeeEstimator<F>, logger: &WithContext<L>, require_funding_seen: bool)
+        ensures final(self).best_block == old(self).best_block, final(self).onchain_events_awaiting_threshold_conf == old(self).onchain_events_awaiting_threshold_conf
+    { unimplemented!() }
+
+//@extract lightning/src/chain/channelmonitor.rs :: impl ChannelMonitorImpl :: fn blocks_disconnected
+//@requires
+    old(self).best_block.height > fork_point.height
+//@ensures P C11 a-reorg-retracts-every-awaiting-event-confirmed-above-the-fork-point-and-keeps-the-others
+    final(self).best_block == fork_point,
+    final(self).onchain_events_awaiting_threshold_conf@ == kept_le(old(self).onchain_events_awaiting_threshold_conf@, fork_point.height as int),
+    forall|k: int| 0 <= k < final(self).onchain_events_awaiting_threshold_conf@.len() ==> (#[trigger] final(self).onchain_events_awaiting_threshold_conf@[k]).height <= fork_point.height,
+//@rw R6e
+    self.onchain_events_awaiting_threshold_conf.retain(|ref $h:ident| $body);
+//@with
+    let ghost orig = self.onchain_events_awaiting_threshold_conf@;
+    proof { assert(orig.take(0) =~= Seq::<OnchainEventEntry>::empty()); assert(self.onchain_events_awaiting_threshold_conf@.take(0) =~= Seq::<OnchainEventEntry>::empty()); }
+    {
+        let mut __i: usize = 0;
+        while __i < self.onchain_events_awaiting_threshold_conf.len()
+            invariant
+                __i <= self.onchain_events_awaiting_threshold_conf@.len() <= orig.len(), new_height == fork_point.height,
+                self.best_block == old(self).best_block, self.alternative_funding_confirmed == old(self).alternative_funding_confirmed,
+                self.holder_tx_signed == old(self).holder_tx_signed, self.funding_spend_seen == old(self).funding_spend_seen,
+                self.onchain_events_awaiting_threshold_conf@.skip(__i as int) == orig.skip(orig.len() - (self.onchain_events_awaiting_threshold_conf@.len() - __i)),
+                self.onchain_events_awaiting_threshold_conf@.take(__i as int) == kept_le(orig.take(orig.len() - (self.onchain_events_awaiting_threshold_conf@.len() - __i)), new_height as int),
+            decreases self.onchain_events_awaiting_threshold_conf@.len() - __i
+        {
+            let ghost k = orig.len() - (self.onchain_events_awaiting_threshold_conf@.len() - __i);
+            let ghost cur = self.onchain_events_awaiting_threshold_conf@;
+            proof { assert(cur[__i as int] == cur.skip(__i as int)[0]); assert(orig[k] == orig.skip(k)[0]); lemma_kept_step(orig, k, new_height as int); }
+            let __keep = { let $h = &self.onchain_events_awaiting_threshold_conf[__i]; $body };
+            proof { assert(cur.skip(__i as int).skip(1) =~= cur.skip(__i as int + 1)); assert(orig.skip(k).skip(1) =~= orig.skip(k + 1)); }
+            if __keep { __i = __i + 1;
+                proof { assert(self.onchain_events_awaiting_threshold_conf@.take(__i as int) =~= cur.take(__i as int - 1).push(cur[__i as int - 1])); }
+            } else { self.onchain_events_awaiting_threshold_conf.remove(__i);
+                proof { assert(self.onchain_events_awaiting_threshold_conf@ =~= cur.remove(__i as int)); assert(self.onchain_events_awaiting_threshold_conf@.skip(__i as int) =~= cur.skip(__i as int + 1)); assert(self.onchain_events_awaiting_threshold_conf@.take(__i as int) =~= cur.take(__i as int)); }
+            }
+        }
+    }
+    proof {
+        assert(orig.take(orig.len() as int) =~= orig);
+        assert(self.onchain_events_awaiting_threshold_conf@.take(self.onchain_events_awaiting_threshold_conf@.len() as int) =~= self.onchain_events_awaiting_threshold_conf@);
+        lemma_kept_all_le(orig, new_height as int);
+    }
+//@mutant events_at_the_fork_height_dropped
+    entry.height <= new_height
+//@with
+    entry.height < new_height
+//@mutant best_block_not_rewound
+    self.best_block = fork_point;
+//@with
+    let _ = fork_point;
+//@end
+
+//@extract lightning/src/chain/channelmonitor.rs :: impl ChannelMonitorImpl :: fn transaction_unconfirmed
+//@requires
+    // representation invariant: a transaction confirms in one block, so entries with the same txid have the same height
+    forall|a: int, b: int| 0 <= a < old(self).onchain_events_awaiting_threshold_conf@.len() && 0 <= b < old(self).onchain_events_awaiting_threshold_conf@.len()
+        && old(self).onchain_events_awaiting_threshold_conf@[a].txid == old(self).onchain_events_awaiting_threshold_conf@[b].txid
+        ==> old(self).onchain_events_awaiting_threshold_conf@[a].height == old(self).onchain_events_awaiting_threshold_conf@[b].height,
+//@ensures P C11 unconfirming-a-transaction-retracts-its-awaiting-events-and-everything-confirmed-at-or-above-its-height
+    final(self).best_block == old(self).best_block,
+    forall|k: int| 0 <= k < final(self).onchain_events_awaiting_threshold_conf@.len() ==> (#[trigger] final(self).onchain_events_awaiting_threshold_conf@[k]).txid != *txid,
+    forall|k: int| 0 <= k < final(self).onchain_events_awaiting_threshold_conf@.len() ==> old(self).onchain_events_awaiting_threshold_conf@.contains(#[trigger] final(self).onchain_events_awaiting_threshold_conf@[k]),
+    (forall|k: int| 0 <= k < old(self).onchain_events_awaiting_threshold_conf@.len() ==> (#[trigger] old(self).onchain_events_awaiting_threshold_conf@[k]).txid != *txid)
+        ==> final(self).onchain_events_awaiting_threshold_conf@ == old(self).onchain_events_awaiting_threshold_conf@,
+//@loop 1 iter=it
+    invariant_except_break removed_height is None,
+        forall|j: int| 0 <= j < it.index@ ==> (#[trigger] self.onchain_events_awaiting_threshold_conf@[j]).txid != *txid,
+    invariant *self == *old(self), it.seq().len() == self.onchain_events_awaiting_threshold_conf@.len(),
+        forall|j: int| 0 <= j < it.seq().len() ==> *it.seq()[j] == self.onchain_events_awaiting_threshold_conf@[j],
+    ensures *self == *old(self),
+        removed_height is None ==> forall|j: int| 0 <= j < self.onchain_events_awaiting_threshold_conf@.len() ==> (#[trigger] self.onchain_events_awaiting_threshold_conf@[j]).txid != *txid,
+        removed_height is Some ==> exists|j: int| 0 <= j < self.onchain_events_awaiting_threshold_conf@.len() && (#[trigger] self.onchain_events_awaiting_threshold_conf@[j]).txid == *txid
+            && self.onchain_events_awaiting_threshold_conf@[j].height == removed_height->Some_0,
+//@rw R6e
+    self.onchain_events_awaiting_threshold_conf.retain(|ref $h:ident| $body);
+//@with
+    let ghost orig = self.onchain_events_awaiting_threshold_conf@;
+    proof { assert(orig.take(0) =~= Seq::<OnchainEventEntry>::empty()); assert(self.onchain_events_awaiting_threshold_conf@.take(0) =~= Seq::<OnchainEventEntry>::empty()); }
+    {
+        let mut __i: usize = 0;
+        while __i < self.onchain_events_awaiting_threshold_conf.len()
+            invariant
+                __i <= self.onchain_events_awaiting_threshold_conf@.len() <= orig.len(),
+                self.best_block == old(self).best_block, self.alternative_funding_confirmed == old(self).alternative_funding_confirmed,
+                self.holder_tx_signed == old(self).holder_tx_signed, self.funding_spend_seen == old(self).funding_spend_seen,
+                self.onchain_events_awaiting_threshold_conf@.skip(__i as int) == orig.skip(orig.len() - (self.onchain_events_awaiting_threshold_conf@.len() - __i)),
+                self.onchain_events_awaiting_threshold_conf@.take(__i as int) == kept_le(orig.take(orig.len() - (self.onchain_events_awaiting_threshold_conf@.len() - __i)), removed_height as int - 1),
+            decreases self.onchain_events_awaiting_threshold_conf@.len() - __i
+        {
+            let ghost k = orig.len() - (self.onchain_events_awaiting_threshold_conf@.len() - __i);
+            let ghost cur = self.onchain_events_awaiting_threshold_conf@;
+            proof { assert(cur[__i as int] == cur.skip(__i as int)[0]); assert(orig[k] == orig.skip(k)[0]); lemma_kept_step(orig, k, removed_height as int - 1); }
+            let __keep = { let $h = &self.onchain_events_awaiting_threshold_conf[__i]; $body };
+            proof { assert(cur.skip(__i as int).skip(1) =~= cur.skip(__i as int + 1)); assert(orig.skip(k).skip(1) =~= orig.skip(k + 1)); }
+            if __keep { __i = __i + 1;
+                proof { assert(self.onchain_events_awaiting_threshold_conf@.take(__i as int) =~= cur.take(__i as int - 1).push(cur[__i as int - 1])); }
+            } else { self.onchain_events_awaiting_threshold_conf.remove(__i);
+                proof { assert(self.onchain_events_awaiting_threshold_conf@ =~= cur.remove(__i as int)); assert(self.onchain_events_awaiting_threshold_conf@.skip(__i as int) =~= cur.skip(__i as int + 1)); assert(self.onchain_events_awaiting_threshold_conf@.take(__i as int) =~= cur.take(__i as int)); }
+            }
+        }
+    }
+    proof {
+        assert(orig.take(orig.len() as int) =~= orig);
+        assert(self.onchain_events_awaiting_threshold_conf@.take(self.onchain_events_awaiting_threshold_conf@.len() as int) =~= self.onchain_events_awaiting_threshold_conf@);
+        lemma_kept_all_le(orig, removed_height as int - 1);
+    }
+//@rw R6
+    debug_assert!(!self.onchain_events_awaiting_threshold_conf.iter().any(|ref $e:ident| $c));
+//@with
+    // LDK's own debug_assert!(!...iter().any(|ref entry| entry.txid == *txid)), as a proof obligation over every element
+    proof {
+        lemma_kept_all_le(old(self).onchain_events_awaiting_threshold_conf@, if removed_height is Some { removed_height->Some_0 as int - 1 } else { 0 });
+        assert forall|kk: int| #![trigger self.onchain_events_awaiting_threshold_conf@[kk]] 0 <= kk < self.onchain_events_awaiting_threshold_conf@.len() implies !({ let $e = &self.onchain_events_awaiting_threshold_conf@[kk]; $c }) by {
+            let e = self.onchain_events_awaiting_threshold_conf@[kk];
+            if removed_height is Some {
+                assert(old(self).onchain_events_awaiting_threshold_conf@.contains(e));
+                let j0 = choose|j: int| 0 <= j < old(self).onchain_events_awaiting_threshold_conf@.len() && old(self).onchain_events_awaiting_threshold_conf@[j] == e;
+                let j1 = choose|j: int| 0 <= j < old(self).onchain_events_awaiting_threshold_conf@.len() && (#[trigger] old(self).onchain_events_awaiting_threshold_conf@[j]).txid == *txid
+                    && old(self).onchain_events_awaiting_threshold_conf@[j].height == removed_height->Some_0;
+                if e.txid == *txid { assert(old(self).onchain_events_awaiting_threshold_conf@[j0].height == old(self).onchain_events_awaiting_threshold_conf@[j1].height); }
+            }
+        }
+    }
+//@mutant only_later_heights_removed
+    if entry.height >= removed_height {
+//@with
+    if entry.height > removed_height {
 //@end
 }
 }
